@@ -357,3 +357,4 @@ static void run_c05_timed(void)
 }
 SIM_WORKLOAD("C05", "cond-credit-timed", run_c05_timed, 5)
 SIM_WORKLOAD("C19", "cond-timed", run_c19_cond, 10)
+
